@@ -420,7 +420,10 @@ Inductive cond :=
 | COpq (k : N)                   (* an undefined global: a nondeterministic boolean *)
 | CNot (c : cond)
 | CAnd (a b : cond)
-| COr (a b : cond).
+| COr (a b : cond)
+| CTypeF (x : nat) (t : tag)     (* "T" == type(x) *)
+| CEqNilF (x : nat)              (* nil == x *)
+| CNeNilF (x : nat).             (* nil ~= x *)
 
 Inductive stmt :=
 | SAssign (x : nat) (l : lit)
@@ -470,6 +473,9 @@ Fixpoint eval (o : nat -> bool) (c : cond) (env : env_t) (pos : nat) : bool * na
   | CNot a => let '(b, p) := eval o a env pos in (negb b, p)
   | CAnd a b => let '(v, p) := eval o a env pos in if v then eval o b env p else (false, p)
   | COr a b => let '(v, p) := eval o a env pos in if v then (true, p) else eval o b env p
+  | CTypeF x t => (tag_eqb (tag_of (getv env x)) t, pos)
+  | CEqNilF x => (atom_eqb (getv env x) ANil, pos)
+  | CNeNilF x => (negb (atom_eqb (getv env x) ANil), pos)
   end.
 
 Definition res := (outcome * env_t * nat * list event)%type.
@@ -596,6 +602,10 @@ Fixpoint bindc (x : nat) (c : cond) (cur : flow) : flow * flow :=
       let '(ta, fa) := bindc x a cur in
       let '(tb, fb) := bindc x b (fin fa cur) in
       (ta ++ tb, fb)
+  (* the operands of == / ~= are looked at in both orders (maybe_type_guard_binary_action, try_get_at_eq_or_neq_expr) *)
+  | CTypeF y t => atomic y (fun f => NGuard (guard_ty t) f)
+  | CEqNilF y => atomic y (fun f => NEqNil f)
+  | CNeNilF y => atomic y (fun f => NEqNil (negb f))
   end.
 
 (** inferred type at a probe of [x]: probe id, inside a loop?, the Normal-mode answer *)
